@@ -565,6 +565,12 @@ static size_t calculateVoidPointerAlignedSize(size_t size)
 #endif
 }
 
+static bool sizeCannotBeTrackedWithoutOverflow(size_t size)
+{
+    const size_t accountingOverhead = MemoryLeakDetector::memory_corruption_buffer_size + sizeof(void*) + sizeof(MemoryLeakDetectorNode);
+    return size > ((size_t) -1) - accountingOverhead;
+}
+
 size_t MemoryLeakDetector::sizeOfMemoryWithCorruptionInfo(size_t size)
 {
     return calculateVoidPointerAlignedSize(size + memory_corruption_buffer_size);
@@ -667,6 +673,8 @@ char* MemoryLeakDetector::allocMemory(TestMemoryAllocator* allocator, size_t siz
      * So, for malloc, we'll allocate the memory separately so we can detect this and give a proper error.
      */
 
+    if (sizeCannotBeTrackedWithoutOverflow(size)) return NULLPTR;
+
     char* memory = allocateMemoryWithAccountingInformation(allocator, size, file, line, allocatNodesSeperately);
     if (memory == NULLPTR) return NULLPTR;
     MemoryLeakDetectorNode* node = createMemoryLeakAccountingInformation(allocator, size, memory, allocatNodesSeperately);
@@ -722,6 +730,8 @@ char* MemoryLeakDetector::reallocMemory(TestMemoryAllocator* allocator, char* me
 #ifdef CPPUTEST_DISABLE_MEM_CORRUPTION_CHECK
    allocatNodesSeperately = true;
 #endif
+    if (sizeCannotBeTrackedWithoutOverflow(size)) return NULLPTR;
+
     if (memory) {
         MemoryLeakDetectorNode* node = memoryTable_.removeNode(memory);
         if (node == NULLPTR) {
